@@ -1,5 +1,8 @@
 // blocks sub-command: the REAL BlockWatcher on the simulated Rpc with a paused clock.
 // Input: {"events": [{"e":"reply","h":n|null} | {"e":"notify","h":n} | {"e":"tick","ms":n}, ...]}
+//        {"e":"burst","hs":[..]}: the notifications arrive CONCURRENTLY while the height mutex is contended (the harness holds it,
+//        queues one new_block task per height in the given order, then releases it): a compare and a store that are not one
+//        critical section interleave here exactly as they can between two worker threads of the shipped runtime.
 // Output: {"steps": [{"height": n, "calls": k, "stopped": bool}, ...]}  (one per event)
 use crate::block_watcher::{BlockProvider, BlockWatcher};
 use crate::messages::BlockAdded;
@@ -87,6 +90,19 @@ pub fn run() {
                     "reply" => { if let Some(ci) = outstanding(&node) { reply(&node, ci, ev["h"].as_u64().map(|h| h as u32)); } }
                     "notify" => { bw.new_block(&BlockAdded { height: ev["h"].as_u64().unwrap() as u32 }).await; }
                     "tick" => { tokio::time::advance(Duration::from_millis(ev["ms"].as_u64().unwrap())).await; }
+                    "burst" => {
+                        let lock = crate::block_watcher::probe_height_lock(&bw);
+                        let guard = lock.lock().await;
+                        let mut hs = vec![];
+                        for h in ev["hs"].as_array().unwrap() {
+                            let b = bw.clone();
+                            let hh = h.as_u64().unwrap() as u32;
+                            hs.push(tokio::spawn(async move { b.new_block(&BlockAdded { height: hh }).await; }));
+                            for _ in 0..5 { tokio::task::yield_now().await; }   // the task is now queued on the mutex
+                        }
+                        drop(guard);
+                        for t in hs { let _ = t.await; }
+                    }
                     _ => {}
                 }
                 for _ in 0..30 { tokio::task::yield_now().await; }
